@@ -12,7 +12,7 @@ from hypothesis import strategies as st
 WIDTHS = [1, 8, 16, 32, 64]
 ASSOC = ["+", "*", "^", "&", "|"]
 IDS = {1: ["p1", "q1"], 8: ["a8", "b8", "c8"], 16: ["a16", "b16"], 32: ["a", "b", "c", "d"], 64: ["a64", "b64"]}
-SEGS = [None, ["id", "ds", 16], ["id", "es", 16]]
+SEGS = [None, None, ["id", "ds", 16], ["id", "es", 16], ["int", 16, 0], ["int", 16, 0x23]]      # constant selectors too (a null selector is falsy wherever the code tests truth instead of identity: seed C15-r8-2)
 
 
 def E():
